@@ -195,6 +195,9 @@ def run_case(entry, el, case, fresh_el=None):
         fail('input-modified:' + k, 'the wavefront passed to %s was changed (%s)' % (direction, k))
     if not np.array_equal(np.asarray(E1), E1_keep):
         fail('input-modified:field-values', 'the Field the wavefront was built from was changed')
+    if bad:
+        # the later clauses would run on a corrupted input: report the modification alone
+        return bad, obs
     obs['trace'] = list(trace)
     obs['ret_is_input'] = int(any(o is wf1 for o in outs1))
     obs['ret_shares'] = int(any(np.shares_memory(np.asarray(o.electric_field), np.asarray(wf1.electric_field)) for o in outs1))
@@ -218,13 +221,13 @@ def run_case(entry, el, case, fresh_el=None):
             fail('input-modified:field-values', 'second call changed the input field')
         outs2, _ = call(el, direction, wf2)
         o2 = out_arrays(outs2)
+        ok, w = same(o1, out_arrays(outs1), 0.0, 0.0)
+        if not ok:
+            fail('result-overwritten', 'a later call (with another wavefront) changed the wavefront returned by an earlier call')
         outs1c, _ = call(el, direction, wf1)
         ok, w = same(o1, out_arrays(outs1c), TOL_REP, scale1)
         if not ok or out_meta(outs1c) != m1:
             fail('history', 'result changed after a call with a different wavefront in between (max diff %.3g)' % w)
-        ok, w = same(o1, out_arrays(outs1), 0.0, 0.0)
-        if not ok and not obs['ret_is_input']:
-            fail('result-overwritten', 'a later call changed the wavefront returned by an earlier call')
         if fresh_el is not None:
             outsf, _ = call(fresh_el, direction, wf1)
             ok, w = same(o1, out_arrays(outsf), TOL_REP, scale1)
@@ -321,12 +324,22 @@ def effects_line(obs):
 # ---------------------------------------------------------------------------------------------
 # model correspondence: IR terms filled with the element's own parameters
 
+def frat(x):
+    """Exact protocol text of a Python float (same output as common.rat, without building a Fraction)."""
+    if x == 0.0:
+        return '0'
+    try:
+        n, d = x.as_integer_ratio()         # already in lowest terms
+    except (OverflowError, ValueError):
+        raise MachineryError('non-finite number cannot be sent to the model: %r' % (x,))
+    return str(n) if d == 1 else '%d/%d' % (n, d)
+
+
 def clist(z):
     z = np.asarray(z, dtype=complex).ravel()
-    parts = []
-    for v in z:
-        parts.append(rat(v.real))
-        parts.append(rat(v.imag))
+    parts = [None] * (2 * z.size)
+    parts[0::2] = [frat(v) for v in z.real.tolist()]
+    parts[1::2] = [frat(v) for v in z.imag.tolist()]
     return '[' + ','.join(parts) + ']'
 
 
@@ -397,9 +410,19 @@ def ir_term(entry, el, direction, kind, wl):
     cname = entry.cls.__name__
     grid = entry.input_grid if fwd else entry.output_grid
     reps = {'scalar': 1, 'vector': 2, 'tensor': 4}[kind]
+    import hcipy
     if entry.mult is not None:
         m = np.asarray(entry.mult(el, wl, direction), dtype=complex) * np.ones(grid.size)
         return t_mul(np.tile(m, reps))
+    if isinstance(el, hcipy.Apodizer):                       # every Apodizer subclass: its own instance data
+        return t_mul(np.tile(apod_of(el, grid, wl, direction), reps))
+    if cname in ('MicroLensArray', 'SphericalMicroLensArray', 'EvenAsphereMicroLensArray'):
+        return t_mul(np.tile(apod_of(el.mla_surface, grid, wl, direction), reps))
+    if cname == 'PeriodicOpticalElement':
+        return t_mul(np.tile(apod_of(el.apodization, grid, wl, direction), reps))
+    if cname == 'SimpleVibration':
+        ph = np.asarray(el.mode) * el.amplitude / wl * np.sin(el.phase)
+        return t_mul(np.tile(np.exp((1j if fwd else -1j) * ph), reps))
     if fam == 'jones' and kind == 'vector':
         J = np.asarray(el.get_instance_data(grid, None, wl).jones_matrix, dtype=complex)
         if J.ndim == 2:
@@ -461,9 +484,39 @@ def ir_term(entry, el, direction, kind, wl):
         if stop is None:
             return term
         return t_comp(t_mul(stop), term) if fwd else t_comp(term, t_mul(stop))
-    if fam == 'system' and cname == 'OpticalSystem':
-        import hcipy
-        subs = list(el.optical_elements) if fwd else list(reversed(el.optical_elements))
+    if fam == 'fibre-modes':
+        inst = el.get_instance_data(grid, None, wl)
+        M = np.asarray(inst.fiber_modes.transformation_matrix, dtype=complex)
+        ph = np.exp((1j if fwd else -1j) * np.asarray(inst.beta) * el.fiber_length)
+        w = grid.weights * np.ones(grid.size)
+        return t_comp(t_mat(M.conj()), t_mul(ph), t_mat(M.conj().T), t_mul(w))
+    if fam == 'fibre-nuller':
+        fib = el.fiber
+        fg = el.focal_grid
+        if fwd:
+            P = probe(el.prop.forward, entry.input_grid, wl)
+            if hasattr(fib, 'mode'):
+                rows = (np.asarray(fib.mode, dtype=complex) * fib.input_grid.weights)[None, :]
+            else:
+                Pm = np.asarray(fib.projection_matrix, dtype=complex)
+                rows = Pm.T * (fib.input_grid.weights * np.ones(Pm.shape[0]))[None, :]
+            return t_comp(t_mat(rows), 'conj', t_mat(P), t_mul(apod_of(el.apodizer, entry.input_grid, wl, 'forward')) if el.apodizer is not None else None)
+        Pb = probe(el.prop.backward, fg, wl)
+        B = np.asarray(fib.mode, dtype=complex)[:, None] if hasattr(fib, 'mode') else np.asarray(fib.projection_matrix, dtype=complex)
+        return t_comp(t_mul(apod_of(el.apodizer, entry.input_grid, wl, 'backward')) if el.apodizer is not None else None, t_mat(Pb), t_mat(B))
+    if cname == 'SurfaceAberrationAtDistance':
+        Ff = probe(el.fresnel.forward, grid, wl)
+        Fb = probe(el.fresnel.backward, grid, wl)
+        return t_comp(t_mat(Fb), t_mul(apod_of(el.surface_aberration, grid, wl, direction)), t_mat(Ff))
+    subs = None
+    if fam == 'system' and hasattr(el, '_optical_elements'):
+        subs = list(el.optical_elements)
+    elif cname == 'PyramidWavefrontSensorOptics':
+        subs = [el.pupil_to_focal, el.spatial_filter, el.pyramid, el.focal_to_pupil]
+    elif cname == 'MultiLayerAtmosphere':
+        subs = list(el.elements)
+    if subs is not None:
+        subs = subs if fwd else list(reversed(subs))
         g = grid
         terms = []
         for sub in subs:
@@ -489,22 +542,27 @@ def parse_clist(s):
 # ---------------------------------------------------------------------------------------------
 
 def plan(ctx):
-    """The list of cases of this run: every entry x supported kind x direction x wavelength, `rounds` times."""
-    reg_seed = [ctx.seed, 6, 0]
-    entries = registry.elements(np.random.default_rng(reg_seed))
-    rounds = ctx.scale(2, 12)
+    """The list of cases of this run: for each registry (one in the quick tier, several — different grid sizes and
+    element parameters — in the thorough tier) every entry x supported kind x direction x wavelength, `rounds` times."""
+    nreg = ctx.scale(1, 5)
+    rounds = ctx.scale(2, 3)
+    registries = []
     cases = []
     idx = 0
-    for r in range(rounds):
-        for e in entries:
-            for direction in ('forward', 'backward'):
-                kinds = e.kinds if direction == 'forward' else e.backward_kinds
-                for kind in kinds:
-                    for wl in e.wavelengths:
-                        idx += 1
-                        cases.append({'entry': e.name, 'kind': kind, 'direction': direction, 'wavelength': wl,
-                                      'reg_seed': reg_seed, 'data_seed': [ctx.seed, 6, 1, idx], 'sparse': bool(r % 2), 'round': r})
-    return entries, cases
+    for k in range(nreg):
+        reg_seed = [ctx.seed, 6, 0, k]
+        entries = registry.elements(np.random.default_rng(reg_seed))
+        registries.append(entries)
+        for r in range(rounds):
+            for e in entries:
+                for direction in ('forward', 'backward'):
+                    kinds = e.kinds if direction == 'forward' else e.backward_kinds
+                    for kind in kinds:
+                        for wl in e.wavelengths:
+                            idx += 1
+                            cases.append({'entry': e.name, 'kind': kind, 'direction': direction, 'wavelength': wl, 'registry': k,
+                                          'reg_seed': reg_seed, 'data_seed': [ctx.seed, 6, 1, idx], 'sparse': bool(r % 2), 'round': r})
+    return registries, cases
 
 
 def run(ctx):
@@ -517,9 +575,12 @@ def run(ctx):
     ctx.assumptions += ['element-internal caches are exercised behaviourally only (C05 models them)',
                         'float arithmetic on the generated dyadic fields (a*E1+E2) is exact',
                         'sub-propagators probed as dense matrices are linear (checked by their own registry entries)']
-    entries, cases = plan(ctx)
-    by_name = {e.name: e for e in entries}
+    registries, cases = plan(ctx)
+    entries = registries[0]
+    by_name = {(k, e.name): e for k, ents in enumerate(registries) for e in ents}
+    ctx.extra['registries'] = len(registries)
     ctx.extra['registry_entries'] = len(entries)
+    ctx.extra['grid_sizes'] = sorted(set(int(e.input_grid.size) for ents in registries for e in ents))
     ctx.extra['uncovered'] = registry.uncovered(entries)
     ctx.extra['classes_covered'] = sorted(set(e.cls.__name__ for e in entries))
     ctx.extra['entry_notes'] = {e.name: e.notes for e in entries if e.notes}
@@ -527,16 +588,17 @@ def run(ctx):
     fresh_done = set()
     requests = []        # (line, kind-of-request, payload)
     denote_done = set()
-    heavy_budget = ctx.scale(40, 400)
+    heavy_budget = ctx.scale(64, 600)
     for case in cases:
-        e = by_name[case['entry']]
-        if e.name not in elements:
+        e = by_name[(case['registry'], case['entry'])]
+        ekey = (case['registry'], e.name)
+        if ekey not in elements:
             try:
-                elements[e.name] = e.factory()
+                elements[ekey] = e.factory()
             except Exception as ex:     # noqa
                 raise MachineryError('registry entry %s cannot be constructed: %s: %s' % (e.name, type(ex).__name__, ex))
-        el = elements[e.name]
-        fkey = (e.name, case['kind'], case['direction'], case['wavelength'])
+        el = elements[ekey]
+        fkey = (case['registry'], e.name, case['kind'], case['direction'], case['wavelength'])
         fresh = None
         if fkey not in fresh_done:
             fresh_done.add(fkey)
@@ -550,7 +612,7 @@ def run(ctx):
         ctx.count('clauses-failed' if bad else 'clauses-ok')
         nontriv = 'out' in obs and any(maxabs(x) > 0 for x in obs['out'])
         ctx.case({k: case[k] for k in ('entry', 'kind', 'direction', 'wavelength')} if case['round'] == 0 else None,
-                 nontrivial_key=(e.name, case['kind'], case['direction'], case['wavelength'], case['sparse']) if nontriv else None)
+                 nontrivial_key=(case['registry'], e.name, case['kind'], case['direction'], case['wavelength'], case['sparse']) if nontriv else None)
         if 'out' not in obs:
             continue
         # model correspondence (first round only: the programs/terms do not depend on the field values)
